@@ -327,7 +327,11 @@ def build_graph(ctx, source_kwargs):
             spec = tuple(n['fn'])
             margs = tuple(n.get('args', ()))
             mkw = dict(n.get('kwargs', {}))
-            s = ups[0].map(ctx.sync_fn(nid, lambda x, *a, _s=spec, **k: fns.mapf(_s, x, *a, **k)), *margs, **mkw)
+            if n.get('shared_fn'):
+                # one function object used by several nodes (source.map(add, 1) next to source.map(add, 100))
+                s = ups[0].map(fns.shared_map, *margs, **mkw)
+            else:
+                s = ups[0].map(ctx.sync_fn(nid, lambda x, *a, _s=spec, **k: fns.mapf(_s, x, *a, **k)), *margs, **mkw)
         elif op == 'starmap':
             spec = tuple(n['fn'])
             args = tuple(n.get('args', ()))
@@ -379,7 +383,10 @@ def build_graph(ctx, source_kwargs):
             if n.get('cache_maxlen'):
                 # a caller-supplied (empty) bounded cache: the last k elements since the previous flush
                 from collections import deque as _dq
-                s = ups[0].collect(cache=_dq(maxlen=n['cache_maxlen']))
+                if n.get('md_cache_maxlen'):
+                    s = ups[0].collect(cache=_dq(maxlen=n['cache_maxlen']), metadata_cache=_dq(maxlen=n['md_cache_maxlen']))
+                else:
+                    s = ups[0].collect(cache=_dq(maxlen=n['cache_maxlen']))
             else:
                 s = ups[0].collect()
         elif op == 'union':
